@@ -210,6 +210,44 @@ Section Shapes.
       destruct (inner v) as [|e l]; [reflexivity|]. cbn [flat_map] in E1. rewrite orb_true_r in E1. discriminate E1.
   Qed.
 
+  (* ... and with the PARENT alone selected: one row per qualifying element, each row its parent (a parent that qualifies through
+     a later element only is still delivered) *)
+  Lemma rows_parent_bound v e :
+    map (row_of h dom [TVar x]) (bind_selected h dom [TVar x] (bind (bind [] x v) id e)) = [[v]].
+  Proof.
+    cbn [bind_selected EvalPure.eval_term]. rewrite lookup_x_in. cbn [map flat_map fst app]. unfold row_of. cbn [map EvalPure.eval_term].
+    now rewrite lookup_x_in.
+  Qed.
+
+  Theorem unnest_parent_disjunction m1 o1 w1 m2 o2 w2 :
+    run_query h dom [TVar x]
+      (Some (CElseIf (CCmp o1 (TMap m1 (TFlat id t)) (TLit w1)) (CCmp o2 (TMap m2 (TFlat id t)) (TLit w2))))
+    = flat_map (fun v => map (fun _ => [v])
+                             (filter (fun e => apply_op o1 (apply_map h m1 e) w1 || apply_op o2 (apply_map h m2 e) w2) (inner v))) (dom x).
+  Proof.
+    unfold run_query.
+    change (eval h dom (CElseIf (CCmp o1 (TMap m1 (TFlat id t)) (TLit w1)) (CCmp o2 (TMap m2 (TFlat id t)) (TLit w2))) [] false)
+      with (match eval h dom (CCmp o1 (TMap m1 (TFlat id t)) (TLit w1)) [] true with
+            | [] => eval h dom (CCmp o2 (TMap m2 (TFlat id t)) (TLit w2)) [] false
+            | ls => flat_map (fun p : binding * bool => if snd p then eval h dom (CCmp o2 (TMap m2 (TFlat id t)) (TLit w2)) (fst p) false
+                                                       else [(fst p, false)]) ls
+            end).
+    rewrite match_nil_flat_map.
+    - rewrite cmp_item_unbound.
+      induction (dom x) as [|v d IH]; [reflexivity|]. cbn [flat_map].
+      rewrite !flat_map_app, filter_app, map_app, flat_map_app, IH. f_equal. clear IH.
+      induction (inner v) as [|e l IHl]; [reflexivity|]. cbn [flat_map filter map]. rewrite orb_true_r. cbn [app flat_map fst snd].
+      rewrite cmp_item_bound, orb_false_r, filter_app, map_app, flat_map_app, IHl. clear IHl.
+      destruct (apply_op o1 (apply_map h m1 e) w1); cbn [negb orb].
+      + cbn [filter snd negb map fst flat_map app]. unfold Bve. rewrite rows_parent_bound. reflexivity.
+      + destruct (apply_op o2 (apply_map h m2 e) w2); cbn [negb app filter snd map fst flat_map].
+        * unfold Bve. rewrite rows_parent_bound. reflexivity.
+        * reflexivity.
+    - intros E. rewrite cmp_item_unbound in E. rewrite cmp_item_unbound.
+      induction (dom x) as [|v d IH]; [reflexivity|]. cbn [flat_map] in *. apply app_eq_nil in E as [E1 E2]. rewrite (IH E2), app_nil_r.
+      destruct (inner v) as [|e l]; [reflexivity|]. cbn [flat_map] in E1. rewrite orb_true_r in E1. discriminate E1.
+  Qed.
+
   (* ---------- C17 ---------- *)
   Definition all_elems : val := VTup (flat_map (fun v => atoms_of (tval t (ev v))) (dom x)).
 
